@@ -301,6 +301,11 @@ def is_literal_like(e):
 
 
 WITNESSES = [
+    # array lengths around and above 2**31 / 2**32 (third-round seed C09-c: narrowing when the type is realized)
+    ["c", "0x100000010"], ["c", "2147483648"], ["c", "4294967296"], ["c", "040000000000"], ["c", "0x7fffffff"],
+    ["c", "0xFFFFFFFFu"], ["c", "4294967297L"], ["b", "+", ["b", "*", ["c", "2"], ["c", "0x80000000L"]], ["c", "3"]],
+    ["b", "<<", ["c", "1L"], ["c", "32"]], ["b", "|", ["b", "<<", ["c", "1ll"], ["c", "31"]], ["c", "5"]],
+    ["b", "-", ["c", "0x100000000"], ["c", "1"]], ["b", "+", ["c", "2147483647"], ["c", "1L"]],
     ["b", "-", ["b", "<<", ["i", "K7"], ["c", "2"]], ["c", "'a'"]], ["b", "/", ["i", "KM"], ["c", "2"]],
     ["b", "+", ["i", "KB"], ["c", "1u"]],   # corpus: fixed defects (must stay fixed) and the witnesses of the open finding
     ["c", "'\\n'"], ["c", "'\\0'"], ["c", "'\\\\'"], ["c", "'a'"],
@@ -423,7 +428,10 @@ def evaluate(ctx, cases):
                                neg_literal=(c["e"][0] == "u" and c["e"][1] == "-" and is_literal_like(c["e"][2])),
                                # API mode: the C compiler cross-checks; only where C is defined, exact and int-sized
                                api_ok=(refs[i] is not None and refs[i][2] and i not in rejected
-                                       and -2 ** 31 <= refs[i][1] < 2 ** 31))
+                                       and -2 ** 31 <= refs[i][1] < 2 ** 31),
+                               # a typedef of an array of that length (no enum): lengths up to 2**40
+                               api_arr=(refs[i] is not None and refs[i][2] and i not in rejected
+                                        and 0 < refs[i][1] < 2 ** 40))
                           for i, c in enumerate(cases)], api=ctx.thorough, prefix=KDECL)
     out, p = s.run_worker("c09_worker.py", payload, timeout=3000)
     if out is None:
